@@ -1829,6 +1829,9 @@ class Executor:
         if isinstance(container, Coll):
             if container.mem is None:
                 return z3.BoolVal(False)
+            r = self.lib.coll_contains(self, container, item, st)
+            if r is not None:
+                return r
             return container.mem[z3_of(item)]
         if isinstance(container, DictV):
             if container.dom is None:
